@@ -80,7 +80,7 @@ fn main() {
         let mut findings: Vec<Finding> = Vec::new();
         let rec = &rr.outcome;
         let Some(base) = NaiveDate::from_ymd_opt(rr.base.0, rr.base.1, rr.base.2) else { return (findings, cnt) };
-        let r = Render { base, order: Order::Shuffled(case_no as u64), fills: Fills::One, lower: false, dividends: false };
+        let r = Render { base, order: Order::Shuffled(case_no as u64), fills: Fills::One, lower: false, dividends: false, only: None };
         let mut txs = render(rec, &r);
         for (d, per_sec) in rr.divs.iter().enumerate() {
             for (si, (inc, tax)) in per_sec.iter().enumerate() {
@@ -223,7 +223,7 @@ fn main() {
     }
     let sample: Vec<String> = recs.iter().filter(|r| r.years.len() >= 2).take(2).map(|rr| {
         let base = NaiveDate::from_ymd_opt(rr.base.0, rr.base.1, rr.base.2).unwrap_or_default();
-        to_dsl(&render(&rr.outcome, &Render { base, order: Order::Canonical, fills: Fills::One, lower: false, dividends: false }))
+        to_dsl(&render(&rr.outcome, &Render { base, order: Order::Canonical, fills: Fills::One, lower: false, dividends: false, only: None }))
     }).collect();
     println!("{}", json!({"records": recs.len(), "findings": nf, "counters": cnt.map, "samples": sample}));
 }
